@@ -144,3 +144,22 @@ impl<S: Send + Sync> From<S> for MemCase<S> {
         MemCase::encase(s)
     }
 }
+
+#[cfg(epserde_verif)]
+impl<S> MemCase<S> {
+    /// Verification hook (compiled only under `--cfg epserde_verif`): the
+    /// address and length in bytes of the backing region owned by this
+    /// [`MemCase`] and the kind of backend (0 = none, 1 = heap memory,
+    /// 2 = `mmap()`).
+    pub fn verif_backing_region(&self) -> Option<(usize, usize, u8)> {
+        let kind = match &self.1 {
+            MemBackend::None => 0,
+            MemBackend::Memory(_) => 1,
+            #[cfg(feature = "mmap")]
+            MemBackend::Mmap(_) => 2,
+        };
+        self.1
+            .as_ref()
+            .map(|bytes| (bytes.as_ptr() as usize, bytes.len(), kind))
+    }
+}
